@@ -27,16 +27,24 @@ def main():
     if callable(meta.get('extra_cov')):
         meta['extra_cov'] = meta['extra_cov'](tier, results)
     validated = 0
+    val_err = None
     if hasattr(mod, 'validate'):
         try:
             validated = mod.validate(tier)
-        except Exception as e:            # the interpreter or the regex model disagrees with CPython: nothing is decided
-            print(f'INCONCLUSIVE: translator validation failed: {type(e).__name__}: {e}')
-            sys.exit(2)
+        except Exception as e:            # the interpreter or the regex model disagrees with CPython
+            val_err = f'{type(e).__name__}: {e}'
     code = common.finish(pid, tier, meta['level'], results, t0, meta['bounds'] if not callable(meta['bounds'])
                          else meta['bounds'](tier), meta['stubs'], meta['assumptions'], meta['rule'],
                          meta['explanation'], extra_cov=meta.get('extra_cov'), validated=validated,
                          required_outcomes=meta.get('required_outcomes'))
+    if val_err is not None:
+        # A violation that was replayed on the real code stands on its own feet; a pass does not: without an agreeing
+        # translator nothing is decided.
+        if code == 1:
+            print(f'NOTE: translator validation also failed ({val_err}); the violations above were reproduced on the real code')
+        else:
+            print(f'INCONCLUSIVE: translator validation failed: {val_err}')
+            code = 2
     sys.exit(code)
 
 
